@@ -167,7 +167,9 @@ func (cfg *Config) VMOpts() []vm.Option {
 	cfg.init()
 	var opts []vm.Option
 	globals := cfg.globals
-	if len(globals) > 0 {
+	// (a reused VM is told about an empty set of globals too: it must not
+	// keep those of the configuration it ran under before)
+	if len(globals) > 0 || cfg.vm != nil {
 		opts = append(opts, vm.WithGlobals(globals))
 	}
 	importer := cfg.importer
